@@ -796,3 +796,71 @@ func liveCheck(check func(*Case, *Stats) error) func(*Case, *Stats) error {
 		return nil
 	}
 }
+
+
+// legacyLiveCheck (round g, C06-g): a trie LOADED from a legacy stream earlier and
+// still alive must keep its answers while other legacy streams are loaded into
+// other instances (the conversion of an old layout builds a new trie; whatever it
+// uses to do so must not stay shared with the tries it produced).
+func legacyLiveCheck(check func(*Case, *Stats) error) func(*Case, *Stats) error {
+	return func(c *Case, s *Stats) error {
+		if c.Earlier == nil {
+			return check(c, s)
+		}
+		e := *c.Earlier
+		e.Earlier = nil
+		em := newModel(&e)
+		eb, err := streamOf(&e)
+		if err != nil {
+			return err
+		}
+		var est *trie.SlimTrie
+		err = guard("Unmarshal of a legacy stream (earlier instance)", func() error {
+			est = emptyTrie(&e)
+			if ue := est.Unmarshal(eb); ue != nil {
+				return viol("legacy-rejected", "Unmarshal of a valid %s stream (%d bytes) failed: %v", e.Load, len(eb), ue)
+			}
+			return nil
+		})
+		if err != nil {
+			return err
+		}
+		qs := append([]string{}, em.AllKeys...)
+		if len(qs) > 300 {
+			qs = append(qs[:150], qs[len(qs)-150:]...)
+		}
+		o := obsOpt{typed: typedEnc(&e), stat: true, str: len(e.Keys) < 800, marshal: true}
+		before := observe(est, qs, o)
+		// the earlier trie must be right to begin with (anchor to the model)
+		err = guard("lookup on a legacy-loaded trie (earlier instance)", func() error {
+			for i, k := range em.Keys {
+				if v, f := est.Get(k); !f || !valEq(v, em.Want[i]) {
+					return viol("legacy-get", "%s: Get(%s) = (%v,%v), want (%v,true)", e.Load, q(k), v, f, em.Want[i])
+				}
+			}
+			return nil
+		})
+		if err != nil {
+			return err
+		}
+		if err := check(c, s); err != nil {
+			return err
+		}
+		// one more load of the earlier stream into yet another instance
+		err = guard("Unmarshal of a legacy stream (third instance)", func() error {
+			third := emptyTrie(&e)
+			if ue := third.Unmarshal(eb); ue != nil {
+				return viol("legacy-rejected", "Unmarshal of a valid %s stream failed when offered a second time: %v", e.Load, ue)
+			}
+			return nil
+		})
+		if err != nil {
+			return err
+		}
+		if d := diffObs(before, observe(est, qs, o)); d != "" {
+			return viol("live-instance-changed", "a trie loaded from a %s stream earlier and still alive answers differently after other legacy streams were loaded into other instances: %s", e.Load, d)
+		}
+		s.class("earlier_legacy_loaded_instance_rechecked")
+		return nil
+	}
+}
